@@ -12,7 +12,7 @@ import ast
 import re
 
 from ..flow import FlowAnalysis, has_event, may_event
-from ..model import AnalysisError, FuncInfo, call_name, last_attr, names_in, unparse, walk_no_nested
+from ..model import bind_args, AnalysisError, FuncInfo, call_name, last_attr, names_in, unparse, walk_no_nested
 from ..sites import pipeline_applies, site_writes, apply_fn, worker_fn
 
 # calls whose success depends on the content / existence of the target file
@@ -254,9 +254,9 @@ def rule_accumulate_all(ctx, rep, rule_id="R-ACCUMULATE-ALL"):
                         ok = False
                         why = (f"`{unparse(c)[:70]}` files the elements of the list `{p}` in a set/dict: elements that are equal or share a key "
                                "(two changesets for one path) collapse into one and the other never reaches the report")
-                    st = fa.state_at(c)
-                    guarded = st is not None and any(
-                        txt for must, _ in st.parts for pol, txt in must
+                    # a condition that holds on *every* way of reaching the store (one alternative's branch history is not a guard)
+                    guarded = any(
+                        txt for pol, txt in fa.must_at(c)
                         if not txt.startswith(("EV:", "ITER:", "MATCH:")) and txt not in (p, f"{p} is None")
                     )
                     if guarded:
@@ -281,12 +281,21 @@ def rule_failure_unfixed(ctx, rep):
     )
     af = ctx.prog.func("codemodder.file_context.FileContext.add_failure")
 
+    r_af = ctx.resolver(af)
+    auf = ctx.prog.func("codemodder.file_context.FileContext.add_unfixed_findings")
+
     def ev_af(call):
         la = last_attr(call.func)
-        if la == "append" and isinstance(call.func, ast.Attribute) and last_attr(call.func.value) == "failures":
+        if la in ("append", "add") and isinstance(call.func, ast.Attribute) and last_attr(call.func.value) == "failures":
             return "EV:recorded"
-        if la == "add_unfixed_findings" and call.args and isinstance(call.args[0], ast.Call) and last_attr(call.args[0].func) == "get_all_findings":
-            return "EV:unfixed-all"
+        if la == "add_unfixed_findings":
+            # the findings argument (positional or by keyword, possibly through a local) is the complete list of the file's findings
+            b = bind_args(call, auf, True)
+            fp = auf.positional_params()[1] if len(auf.positional_params()) > 1 else "findings"
+            a = b.get(fp)
+            a = r_af.expand(a) if a is not None else None
+            if isinstance(a, ast.Call) and last_attr(a.func) == "get_all_findings":
+                return "EV:unfixed-all"
         return None
 
     fa = FlowAnalysis(af.node, ev_af)
@@ -301,10 +310,19 @@ def rule_failure_unfixed(ctx, rep):
     loop = loops[0]
     wanted = {"add_failures": "failures", "add_unfixed_findings": "unfixed_findings", "add_changesets": "changesets", "add_dependencies": "dependencies"}
 
+    r_pr = ctx.resolver(pr)
+    ctx_cls = ctx.prog.cls("codemodder.context.CodemodExecutionContext")
+
     def ev_pr(call):
         la = last_attr(call.func)
-        if la in wanted and len(call.args) >= 2 and last_attr(call.args[1]) == wanted[la]:
-            return "EV:" + la
+        if la in wanted and la in ctx_cls.methods:
+            m_ = ctx_cls.methods[la]
+            pp_ = m_.positional_params()
+            b = bind_args(call, m_, True)
+            a = b.get(pp_[2]) if len(pp_) > 2 else None  # (self, codemod id, items)
+            a = r_pr.expand(a) if isinstance(a, ast.Name) else a
+            if a is not None and last_attr(a) == wanted[la]:
+                return "EV:" + la
         return None
 
     fb = FlowAnalysis(loop, ev_pr, body=loop.body)
